@@ -308,6 +308,7 @@ GEN = {
     "C10": "convert_geometry_to_bbox and convert_time_to_sample of the crowsetta export",
     "C08": "iterate_over_valid_clips (which clips are evaluated, and with which annotation)",
     "C09": "iterate_over_valid_clips (which clips are evaluated, and with which annotation)",
+    "C13": "_compute_similarity_matrix (the pairs on which the comparison function is queried and the row/column bookkeeping of the sparse adjacency matrix; the comparison function is a parameter, scipy's connected_components stays modelled)",
 }
 for _pid, _what in GEN.items():
     _t, _n, _tech, _ref = CLAIMED[_pid]
